@@ -681,6 +681,19 @@ fn chain_cases() -> Vec<A> {
         }
     };
     let mut out = vec![];
+    // an element that declares a default namespace which is not its own (it is written with a prefix itself): the
+    // declaration is there for the elements below it
+    for outer in [FOREIGN, ""] {
+        for inner in [SVG, MATHML, FOREIGN, "urn:g"] {
+            if outer.is_empty() && inner != "urn:g" {
+                continue;
+            }
+            let child = A::el(inner, name_of(inner)).child(A::el(inner, "g")).child(A::text("t"));
+            let top = if outer.is_empty() { A::el("urn:h", "x").decl("h2", "urn:h").decl("", inner) } else { A::el(outer, "x").decl("f", outer).decl("", inner) };
+            out.push(A::el("", "body").child(top.clone().child(child.clone()).child(child.clone())));
+            out.push(top.child(child));
+        }
+    }
     for n1 in NSS {
         for n2 in NSS {
             for n3 in NSS {
